@@ -197,6 +197,16 @@ func (e *Exec) load(p Ptr) Value {
 		}
 		return copyVal(arr.e[p.idx.val])
 	}
+	if len(arr.e) > 0 {
+		if _, scalar := arr.e[0].(*Term); !scalar {
+			// elements are aggregates / pointers / interfaces: fork over the feasible indices
+			k := e.concretize(p.idx, "index of non-scalar element")
+			if k >= uint64(len(arr.e)) {
+				panic(mkEnd("engine", "load beyond backing array"))
+			}
+			return copyVal(arr.e[k])
+		}
+	}
 	var r *Term
 	for i := len(arr.e) - 1; i >= 0; i-- {
 		el, ok := arr.e[i].(*Term)
@@ -230,7 +240,15 @@ func (e *Exec) store(p Ptr, v Value) {
 		arr.e[p.idx.val] = copyVal(v)
 		return
 	}
-	nv := v.(*Term)
+	nv, scalar := v.(*Term)
+	if !scalar {
+		k := e.concretize(p.idx, "index of non-scalar element (store)")
+		if k >= uint64(len(arr.e)) {
+			panic(mkEnd("engine", "store beyond backing array"))
+		}
+		arr.e[k] = copyVal(v)
+		return
+	}
 	for i := range arr.e {
 		old := arr.e[i].(*Term)
 		arr.e[i] = e.tt.Ite(e.tt.Eq(p.idx, e.tt.Const(64, uint64(i))), nv, old)
